@@ -91,6 +91,21 @@ def families(tier):
             out.append(dict(prop='C04', family='c04.after_timeout', id=f'c04/after-tmo-{b1}{b2}-p{int(par)}-{cshape}-o{"".join(order)}',
                             cfg=dict(bound=3 if deep else 2, cap=20000 if deep else 2500, window=0.8, max_targets=2), params=dict(nb=len(names), ybus=b2, k=0, shape='after_timeout', warm=False, extra=False, fwd='none'),
                             scn=dict(buses={b: dict(parallel=(par and b == 'A')) for b in names}, order=order, forwards=[], handlers=hs, main=main, actors=[], settle=2.0)))
+    # a chain of fire-and-forget dispatches three and four levels below the awaited child (child -> grandchild -> great-grandchild [-> one more]), on the same or another bus:
+    # the await returns only when the LAST of them is complete
+    for depth, gbus, k in itertools.product((3, 4), 'AB', (0, 1)):
+        names = ['A', 'B'] if gbus == 'B' else ['A']
+        chain = ['C', 'G', 'Q', 'Z'][:depth]
+        hs = [dict(bus='A', pat='P', name='hp', prog=[('disp', 'A', 'C', 'late')] + [('pause',)] * k + [('await', 'C'), ('ret', 1)])]
+        for i, t in enumerate(chain):
+            b = 'A' if i % 2 == 0 else gbus
+            nxt = [('disp', 'A' if (i + 1) % 2 == 0 else gbus, chain[i + 1], 'ff')] if i + 1 < depth else [('pause',)]
+            hs.append(dict(bus=b, pat=t, name='h' + t, prog=nxt + [('ret', i)]))
+        hs.append(dict(bus='A', pat='X', name='hx', prog=[('ret', 0)]))
+        for order in ([names] if len(names) == 1 else [names, names[::-1]]):
+            out.append(dict(prop='C04', family='c04.deep_unawaited_chain', id=f'c04/deep-d{depth}-{gbus}-k{k}-o{"".join(order)}', cfg=dict(bound=3 if deep else 2, cap=20000 if deep else 2500, window=0.25, max_targets=2),
+                            params=dict(nb=len(names), ybus='A', k=k, shape='deep', warm=False, extra=False, fwd='none'),
+                            scn=dict(buses={b: {} for b in names}, order=order, forwards=[], handlers=hs, main=[('disp', 'A', 'P', 'late'), ('disp', 'A', 'X', 'ff'), ('await', 'P')], actors=[], settle=2.0)))
     # the awaited child, or a fire-and-forget grandchild the await has to wait for, is an instance of a subclass that is FALSY (an empty batch event)
     for ybus, k, where in itertools.product('AB', (0, 1), ('child', 'grandchild')):
         names = ['A', 'B'] if ybus == 'B' else ['A']
